@@ -200,6 +200,23 @@ def build() -> Check:
     ck.floor("decision_atoms", len(a_dec), 3)
     ck.ob("R3.same-threshold-atoms", fn_construct(gr), a_dec == a_cls,
           f"only in the stop decision: {sorted(a_dec - a_cls)}; only in the classifier: {sorted(a_cls - a_dec)}")
+    # the fail-fast comparisons (against the constant 0, left out of the atoms above): the stop decision goes on exactly while there is NO failure, the
+    # classifier reports the tolerance exceeded exactly when there IS one (mutscan: `failure_count > 0` -> `>= 0` survived the suite and this check)
+    def zero_cmps(fn_nodes):
+        out = set()
+        for fn_node in fn_nodes:
+            for n in ast.walk(fn_node):
+                if isinstance(n, ast.Compare) and len(n.ops) == 1 and isinstance(n.comparators[0], ast.Constant) and n.comparators[0].value in (0, 1) \
+                        and "failure_count" in ast.unparse(n.left):
+                    out.add(norm_atom(ast.unparse(n)))
+        return out
+    NO_FAILURE = {"failure_count == 0", "failure_count < 1", "failure_count <= 0"}
+    SOME_FAILURE = {"failure_count > 0", "failure_count >= 1", "failure_count != 0"}
+    z_dec, z_cls = zero_cmps([sc.node, ic.node]), zero_cmps([gr.node])
+    ck.floor("fail_fast_comparisons", len(z_dec) + len(z_cls), 2)
+    ck.ob("R3.fail-fast-means-any-failure", fn_construct(gr), bool(z_cls) and z_cls <= SOME_FAILURE and bool(z_dec) and z_dec <= NO_FAILURE,
+          f"stop decision compares {sorted(z_dec)} (expected one of {sorted(NO_FAILURE)}), classifier compares {sorted(z_cls)} (expected one of {sorted(SOME_FAILURE)}): "
+          "without a configured tolerance the call must stop on, and report, the first failure - not on none")
     # a quantity derived locally on both sides (failure_percentage) is derived from the same counters: the atoms above compare names only
     def local_defs(fn_nodes):
         d = {}
